@@ -384,5 +384,28 @@ func replaySlogLevels(levelMap []int) (finds []Finding) {
 			}
 		}
 	}
+	// a composite core: every member decides for itself (handled iff THAT core enables the mapped level)
+	for ta := zapcore.DebugLevel; ta <= zapcore.ErrorLevel+1; ta++ {
+		for tb := zapcore.DebugLevel; tb <= zapcore.ErrorLevel+1; tb++ {
+			sa, sb := &jeSink{}, &jeSink{}
+			mk := func(s *jeSink, t zapcore.Level) zapcore.Core {
+				return zapcore.NewCore(zapcore.NewJSONEncoder(zapcore.EncoderConfig{LevelKey: "l", EncodeLevel: zapcore.LowercaseLevelEncoder, SkipLineEnding: true}), s, t)
+			}
+			tee := zapcore.NewTee(mk(sa, ta), mk(sb, tb))
+			for _, h := range []slog.Handler{zapslog.NewHandler(tee), zapslog.NewHandler(tee).WithAttrs([]slog.Attr{slog.Int("a", 1)}), zapslog.NewHandler(tee, zapslog.WithCaller(true), zapslog.AddStacktraceAt(slog.LevelDebug))} {
+				for l := -8; l <= 12; l += 4 {
+					want := zapcore.Level(levelMap[l+20])
+					sa.writes, sb.writes = nil, nil
+					slog.New(h).Log(context.Background(), slog.Level(l), "m")
+					for i, s := range []*jeSink{sa, sb} {
+						t := []zapcore.Level{ta, tb}[i]
+						if (want >= t) != (len(s.writes) == 1) {
+							add("C18/handled-differs", "tee of cores with thresholds %v and %v, record at slog level %d (zap %v): core %d received %d entries", ta, tb, l, want, i+1, len(s.writes))
+						}
+					}
+				}
+			}
+		}
+	}
 	return finds
 }
